@@ -104,6 +104,48 @@ claim("C19", "exploration",
       "instance must see no writer callback at all.",
       "DESIGN.md section 4 C19")
 
+claim("C10", "exploration",
+      "proptest-generated operation histories (stateful, interpreted) on the sender; every emitted FDT instance reassembled by an independent receiver and read by two independent XML parsers (own reader + python expat) plus xmllint --schema, compared with a reference model of the announced set",
+      "Sequences add / remove / publish / set_complete / read / advance over objects with hostile-but-legal metadata (quotes, & < >, non-ASCII, long), per-object OTI, all cache-control variants, groups, both publish "
+      "modes, FDT cenc, fdt_start_id anywhere incl. just below 2^20. Per instance: exact TOI set vs the model, every File attribute and the FEC OTI equal to what was given, Expires = publish instant + duration, "
+      "ids previous+1 mod 2^20 (runs crossing the wrap), one id one content, identical reception by flute's receiver; polling schedules <= 250 ms check that each instance is superseded before it expires.",
+      "DESIGN.md section 4 C10")
+claim("C11", "exploration",
+      "proptest-generated operation histories on the sender with caller-supplied time; ordering invariant over the decoded packet stream (an object packet only after a completely emitted instance listing it)",
+      "Sequences add / remove / publish / read-n / drain / advance / trigger over 1-3 priority queues with multiplexing, both publish modes, start times, carousel and pacing, tiny session symbols so that an FDT "
+      "instance spans many packets. The reference receiver decides when an instance is completely emitted; every object packet must be covered by such an instance, none may fall inside the first emission of "
+      "an instance or between an explicit publish() and the completion of the new instance.",
+      "DESIGN.md section 4 C11")
+claim("C12", "exploration",
+      "proptest-generated operation histories with the sender's counters sampled after every read(); reference model = wire-level transfer counts from an independent decoder; per-transfer rules shared with C08",
+      "Sequences add / remove(+publish) / publish / read-n / drain / advance over objects with max_transfer_count 1-4, carousel none/delay/interval, allow-immediate-stop, removal at arbitrary packet indexes. "
+      "Checked: transfers complete on the wire vs configured count, disappearance exactly when done (nb_objects, is_added, get_objects_in_fdt, later FDTs), nb_transfers within one of the wire count and equal after "
+      "a None, removal semantics (current transfer completes / at most one packet with B), packets per fixed instant bounded by pending work, only FDT packets once nothing is left. Finite horizon.",
+      "DESIGN.md section 4 C12")
+claim("C13", "exploration",
+      "proptest-generated workloads at a fixed instant + enumerated small grid; per-packet scheduling invariants over the decoded stream and the Subscriber events",
+      "Up to 3 priority queues x multiplex_files 0..3 x interleave 1..4 x 1-6 objects (0 to several blocks, 1-2 transfers) added before the first read or after n packets, both publish modes; the thorough tier "
+      "enumerates a small grid exhaustively (quick: a deterministic slice). Invariants: no packet of a lower-priority object while a published unfinished object of a higher-priority queue exists, at most "
+      "max(1, multiplex_files) open transfers per queue, round-robin among them, FIFO first starts, at most interleave_blocks open source blocks opened in increasing order.",
+      "DESIGN.md section 4 C13")
+claim("C14", "exploration",
+      "proptest-generated polling schedules (non-decreasing virtual instants from 1 us to minutes) and timing parameters; never-early / due-ness relations over observed (instant, packet) pairs",
+      "Objects with start times before/at/after now, carousel delay/interval incl. 0, target duration/deadline incl. 0 and past, sizes 0 / one symbol / many, trigger_transfer_at. No transfer starts before its "
+      "start time, no carousel group earlier than its gap, packet i of a paced transfer never before start + i*(target/source packets) (exact integer arithmetic, 1 ns per packet + 1 us allowance), due packets are "
+      "out on drained polls of single-object sessions; degenerate inputs must not panic or stall (watchdog).",
+      "DESIGN.md section 4 C14")
+claim("C15", "exploration",
+      "proptest-generated stateful operation sequences against a reference model (set of live TOIs), wire values decoded independently; full trips around the 16-bit space",
+      "Sequences allocate / drop handle / drop handle in another thread / add with reserved TOI / add implicitly / remove / transmit-all, 60 steps, for every TOI width and initial value {1, 0, max-2..max, random None, "
+      "arbitrary}; every returned TOI is non-zero, inside the width, not live, and is the TOI in the packets and in the FDT entry. 70 000-allocation runs on the 16-bit width with long-lived handles check skipping "
+      "of reserved values across the wrap. Send/Sync bounds are asserted at compile time; schedule exploration of threads is outside this technique.",
+      "DESIGN.md section 4 C15")
+claim("C20", "exploration",
+      "differential testing: the same object sent from a buffer and from another source kind with a generated read-chunking schedule; packet sequences compared byte for byte",
+      "Object x OTI (5 schemes, E, B, parity, interleave) x 1-3 transfers, source in {cached file, file stream, Cursor, BufReader<File> of capacity 1..8192, harness stream returning fixed small / random / "
+      "one-byte chunks}; identical configuration, TOIs and instants, so every packet must be identical to the buffer run; the harness stream asserts a seek to 0 before each transfer.",
+      "DESIGN.md section 4 C20")
+
 ALL = ["C%02d" % i for i in range(1, 21)]
 
 def main():
